@@ -4,6 +4,8 @@ import (
 	"go/ast"
 	"go/token"
 	"go/types"
+	"sort"
+	"strings"
 
 	"golang.org/x/tools/go/cfg"
 )
@@ -16,6 +18,7 @@ type Flow struct {
 	G    *cfg.CFG
 	Body *ast.BlockStmt
 	Name string
+	corr map[string][]types.Object
 }
 
 type Pt struct {
@@ -172,20 +175,49 @@ type Query struct {
 	Target    func(Pt) bool                     // a path ends successfully here
 	Avoid     func(Pt) bool                     // points that may not be passed (checked before Target)
 	AvoidEdge func(b *cfg.Block, succ int) bool // block-to-block edges that may not be taken
+	NoCorr    bool                              // disable correlation of repeated identical conditions
 }
 
 // Reach reports whether some path exists; it returns the witness path.
+//
+// Repeated conditions are correlated: when the same side-effect-free atomic condition (e.g. `len(newRcpts) == 0`)
+// is tested twice on a path without an intervening assignment to a variable it mentions, the second test must
+// agree with the first. This removes the classic infeasible-path false alarm.
 func (f *Flow) Reach(q Query) ([]Pt, bool) {
 	f.P.countPaths()
+	corr := f.corrAtoms()
+	if q.NoCorr {
+		corr = nil
+	}
 	type key struct {
-		b *cfg.Block
-		i int
+		b     *cfg.Block
+		i     int
+		facts string
+	}
+	type state struct {
+		pt    Pt
+		facts map[string]bool
+	}
+	factKey := func(m map[string]bool) string {
+		if len(m) == 0 {
+			return ""
+		}
+		ks := make([]string, 0, len(m))
+		for k, v := range m {
+			if v {
+				ks = append(ks, k+"=T")
+			} else {
+				ks = append(ks, k+"=F")
+			}
+		}
+		sort.Strings(ks)
+		return strings.Join(ks, ";")
 	}
 	prev := map[key]key{}
 	seen := map[key]bool{}
-	var queue []Pt
-	push := func(from key, to Pt, hasFrom bool) {
-		k := key{to.B, to.I}
+	var queue []state
+	push := func(from key, to state, hasFrom bool) {
+		k := key{to.pt.B, to.pt.I, factKey(to.facts)}
 		if seen[k] {
 			return
 		}
@@ -195,38 +227,85 @@ func (f *Flow) Reach(q Query) ([]Pt, bool) {
 		}
 		queue = append(queue, to)
 	}
-	succs := func(pt Pt) []Pt {
+	succs := func(st state) []state {
+		pt := st.pt
 		if pt.I < len(pt.B.Nodes) {
-			return []Pt{{pt.B, pt.I + 1}}
+			facts := st.facts
+			if len(facts) > 0 {
+				// kill facts about variables assigned by this node
+				if killed := f.killedBy(pt.B.Nodes[pt.I], corr); len(killed) > 0 {
+					nf := map[string]bool{}
+					for k, v := range facts {
+						if !killed[k] {
+							nf[k] = v
+						}
+					}
+					facts = nf
+				}
+			}
+			return []state{{Pt{pt.B, pt.I + 1}, facts}}
 		}
-		var out []Pt
+		var out []state
+		cond, isCase := f.Cond(pt.B)
 		for i, s := range pt.B.Succs {
 			if q.AvoidEdge != nil && q.AvoidEdge(pt.B, i) {
 				continue
 			}
-			out = append(out, Pt{s, 0})
+			facts := st.facts
+			if cond != nil && !isCase && len(corr) > 0 {
+				contradiction := false
+				var add []atomFact
+				for _, af := range atomsOnEdge(cond, i) {
+					t := exprStr(af.E)
+					if _, tracked := corr[t]; !tracked {
+						continue
+					}
+					if old, has := facts[t]; has {
+						if old != af.T {
+							contradiction = true
+						}
+					} else {
+						add = append(add, af)
+					}
+				}
+				if contradiction {
+					continue
+				}
+				if len(add) > 0 {
+					nf := map[string]bool{}
+					for k, v := range facts {
+						nf[k] = v
+					}
+					for _, af := range add {
+						nf[exprStr(af.E)] = af.T
+					}
+					facts = nf
+				}
+			}
+			out = append(out, state{Pt{s, 0}, facts})
 		}
 		return out
 	}
 	for _, s := range q.From {
 		if q.Inclusive {
-			push(key{}, s, false)
+			push(key{}, state{s, nil}, false)
 		} else {
-			for _, n := range succs(s) {
+			for _, n := range succs(state{s, nil}) {
 				push(key{}, n, false)
 			}
 		}
 	}
 	for len(queue) > 0 {
-		pt := queue[0]
+		st := queue[0]
 		queue = queue[1:]
+		pt := st.pt
 		if q.Avoid != nil && q.Avoid(pt) {
 			continue
 		}
+		self := key{pt.B, pt.I, factKey(st.facts)}
 		if q.Target != nil && q.Target(pt) {
-			// reconstruct
 			var path []Pt
-			k := key{pt.B, pt.I}
+			k := self
 			for {
 				path = append([]Pt{{k.b, k.i}}, path...)
 				pk, ok := prev[k]
@@ -237,11 +316,157 @@ func (f *Flow) Reach(q Query) ([]Pt, bool) {
 			}
 			return path, true
 		}
-		for _, n := range succs(pt) {
-			push(key{pt.B, pt.I}, n, true)
+		for _, n := range succs(st) {
+			push(self, n, true)
 		}
 	}
 	return nil, false
+}
+
+// corrAtoms: the side-effect-free atomic conditions that occur at least twice in the function, with the objects
+// they mention.
+func (f *Flow) corrAtoms() map[string][]types.Object {
+	if f.corr != nil {
+		return f.corr
+	}
+	count := map[string]int{}
+	objs := map[string][]types.Object{}
+	for _, b := range f.G.Blocks {
+		cond, isCase := f.Cond(b)
+		if cond == nil || isCase || !b.Live {
+			continue
+		}
+		seenHere := map[string]bool{}
+		for si := 0; si < 2; si++ {
+			for _, af := range atomsOnEdge(cond, si) {
+				t := exprStr(af.E)
+				if seenHere[t] {
+					continue
+				}
+				seenHere[t] = true
+				pure := true
+				var os []types.Object
+				ast.Inspect(af.E, func(n ast.Node) bool {
+					switch x := n.(type) {
+					case *ast.CallExpr:
+						if id, ok := x.Fun.(*ast.Ident); ok {
+							if _, isB := f.Info.Uses[id].(*types.Builtin); isB && (id.Name == "len" || id.Name == "cap") {
+								return true
+							}
+						}
+						pure = false
+					case *ast.UnaryExpr:
+						if x.Op == token.ARROW {
+							pure = false
+						}
+					case *ast.Ident:
+						if o := f.Info.Uses[x]; o != nil {
+							os = append(os, o)
+						}
+					}
+					return true
+				})
+				if !pure {
+					continue
+				}
+				count[t]++
+				objs[t] = os
+			}
+		}
+	}
+	f.corr = map[string][]types.Object{}
+	for t, n := range count {
+		if n >= 2 {
+			f.corr[t] = objs[t]
+		}
+	}
+	return f.corr
+}
+
+// killedBy: correlated atoms invalidated by node n (it assigns a variable they mention, or takes its address,
+// or calls something while the atom mentions a field / non-local).
+func (f *Flow) killedBy(n ast.Node, corr map[string][]types.Object) map[string]bool {
+	var assigned []types.Object
+	hasCall := false
+	ast.Inspect(n, func(x ast.Node) bool {
+		switch s := x.(type) {
+		case *ast.AssignStmt:
+			for _, l := range s.Lhs {
+				// root object of the lvalue
+				e := l
+				for {
+					switch y := ast.Unparen(e).(type) {
+					case *ast.SelectorExpr:
+						e = y.X
+						continue
+					case *ast.IndexExpr:
+						e = y.X
+						continue
+					case *ast.StarExpr:
+						e = y.X
+						continue
+					}
+					break
+				}
+				if o := objOf(f.Info, e); o != nil {
+					assigned = append(assigned, o)
+				}
+			}
+		case *ast.IncDecStmt:
+			if o := objOf(f.Info, s.X); o != nil {
+				assigned = append(assigned, o)
+			}
+		case *ast.UnaryExpr:
+			if s.Op == token.AND {
+				if o := objOf(f.Info, s.X); o != nil {
+					assigned = append(assigned, o)
+				}
+			}
+		case *ast.CallExpr:
+			hasCall = true
+		case *ast.RangeStmt:
+			for _, e := range []ast.Expr{s.Key, s.Value} {
+				if e != nil {
+					if o := objOf(f.Info, e); o != nil {
+						assigned = append(assigned, o)
+					}
+				}
+			}
+		case *ast.Ident:
+			// bare range key/value nodes added by go/cfg
+		}
+		return true
+	})
+	// go/cfg adds the key/value identifiers of a range statement as separate nodes: treat a bare identifier
+	// node as a definition of that variable
+	if id, ok := n.(*ast.Ident); ok {
+		if o := objOf(f.Info, id); o != nil {
+			assigned = append(assigned, o)
+		}
+	}
+	out := map[string]bool{}
+	for t, os := range corr {
+		for _, o := range os {
+			for _, a := range assigned {
+				if o == a {
+					out[t] = true
+				}
+			}
+			// a call may change anything that is not a plain local variable (fields via pointers, globals)
+			if hasCall {
+				if v, ok := o.(*types.Var); ok {
+					if v.IsField() || (v.Pkg() != nil && v.Parent() == v.Pkg().Scope()) {
+						out[t] = true
+					}
+				}
+			}
+		}
+		if hasCall && strings.Contains(t, ".") {
+			// atoms over fields (x.f) are invalidated by any call
+			out[t] = true
+		}
+	}
+	return out
 }
 
 var pathCounter int
@@ -471,29 +696,29 @@ func (f *Flow) ReachRefined(from Pt, obj types.Object, wantNil bool, isBool bool
 			push(self, has, Pt{pt.B, pt.I + 1}, it.fresh)
 			return
 		}
-		skip := -1
+		skip := map[int]bool{}
 		if it.fresh {
 			if cond, isCase := f.Cond(pt.B); cond != nil && !isCase {
-				if isBool {
-					// `ok` / `!ok` are split by go/cfg, so the condition is the bare identifier
-					if objOf(f.Info, cond) == obj {
-						if wantNil { // false
-							skip = 0
-						} else {
-							skip = 1
+				for si := 0; si < 2; si++ {
+					for _, fact := range atomsOnEdge(cond, si) {
+						if isBool {
+							if objOf(f.Info, fact.E) == obj && fact.T == wantNil {
+								// wantNil means "false" for bool variables: edge asserts the opposite
+								skip[si] = true
+							}
+						} else if ns, ok := nilTest(f.Info, fact.E, obj); ok {
+							// the atom `fact.E` has truth fact.T on this edge; atom true ⇔ successor 0 of the atom
+							atomSaysNil := (ns == 0) == fact.T
+							if atomSaysNil != wantNil {
+								skip[si] = true
+							}
 						}
-					}
-				} else if ns, ok := nilTest(f.Info, cond, obj); ok {
-					if wantNil {
-						skip = 1 - ns
-					} else {
-						skip = ns
 					}
 				}
 			}
 		}
 		for i, s := range pt.B.Succs {
-			if i == skip {
+			if skip[i] {
 				continue
 			}
 			push(self, has, Pt{s, 0}, it.fresh)
@@ -674,4 +899,69 @@ func (p *Prog) MayCall(fi *FuncInfo, pred CallPred, depth int, seen map[*types.F
 		return true
 	})
 	return found
+}
+
+type cfgBlock = cfg.Block
+
+// atomFact: on some edge, the atomic condition E is known to have truth value T.
+type atomFact struct {
+	E ast.Expr
+	T bool
+}
+
+// atomsOnEdge returns what is known about the atomic sub-conditions of cond on successor succ (0 = cond true).
+// go/cfg (v0.29) keeps && / || / ! inside one condition node, so the decomposition is done here.
+func atomsOnEdge(cond ast.Expr, succ int) []atomFact {
+	var out []atomFact
+	var walk func(e ast.Expr, truth bool)
+	walk = func(e ast.Expr, truth bool) {
+		e = ast.Unparen(e)
+		switch x := e.(type) {
+		case *ast.UnaryExpr:
+			if x.Op == token.NOT {
+				walk(x.X, !truth)
+				return
+			}
+		case *ast.BinaryExpr:
+			if x.Op == token.LAND {
+				if truth {
+					walk(x.X, true)
+					walk(x.Y, true)
+				}
+				return
+			}
+			if x.Op == token.LOR {
+				if !truth {
+					walk(x.X, false)
+					walk(x.Y, false)
+				}
+				return
+			}
+		}
+		out = append(out, atomFact{e, truth})
+	}
+	walk(cond, succ == 0)
+	return out
+}
+
+// edgeImplies: on successor succ of cond, some atom matching pred is known to have the truth value pred asks for.
+func edgeImplies(cond ast.Expr, succ int, pred func(atom ast.Expr) (want bool, match bool)) bool {
+	for _, f := range atomsOnEdge(cond, succ) {
+		if want, ok := pred(f.E); ok && want == f.T {
+			return true
+		}
+	}
+	return false
+}
+
+// AvoidImplying builds an AvoidEdge function that removes every edge on which an atom matching pred has the
+// given truth (so: "is the target still reachable without ever learning that fact?").
+func (f *Flow) AvoidImplying(pred func(atom ast.Expr) (want bool, match bool)) func(b *cfgBlock, i int) bool {
+	return func(b *cfgBlock, i int) bool {
+		cond, isCase := f.Cond(b)
+		if cond == nil || isCase {
+			return false
+		}
+		return edgeImplies(cond, i, pred)
+	}
 }
